@@ -12,7 +12,7 @@ MANIFEST_ENTRY = dict(engine="Chain", design="§4 C19",
 def run(c):
     quick = c.tier == "quick"
     c.level = "exploration"
-    st = chainrun.run_family(c, "C19", "C19", nscen=16 if quick else 150, maxlen=14 if quick else 30,
+    st = chainrun.run_family(c, "C19", "C19", nscen=16 if quick else 500, maxlen=14 if quick else 30,
                              followers=0, exhaustive=False)
     if st["exports"] < 5:
         raise Infra("vacuous run: only %d export/import cycles" % st["exports"])
